@@ -119,3 +119,16 @@ def run(ctx):
     ge = ctx.fn('protocol::generate_interrupt_retries_exceeded_error')
     ctx.ob(any('new_max_interrupted_retries_exceeded_error' in show(e) for _, e in prims.ret_variants(ge)), 'the generator builds the retries-exceeded error', 'retry|generator', loc=ge.loc())
     ctx.ob(all(guarded_any(fe, c.bb, [r'^self\.config\.max_interrupted_retries is Some$']) for c in fs), 'nothing fails without a configured limit', 'retry|guard', loc=fe.loc())
+    # ---- added after seed C18-3b: every record that is due fires at this service, not one per service
+    pat_ = ctx.fn('ProtocolState::process_ack_timeouts')
+    tst = pat_.calls('ProtocolState::get_next_ack_timeout')
+    fl_ = pat_.calls('ProtocolState::complete_operation_as_failure')
+    pop_ = [m for m in prims.mutations(pat_) if show(m.path) == 'self.operation_ack_timeouts' and m.method == 'pop']
+    succ_, _, _ = pat_.graph()
+    okl = len(tst) == 1 and len(fl_) == 1 and len(pop_) == 1 and tst[0].bb in pat_.reach(list(succ_[fl_[0].bb])) and tst[0].bb in pat_.reach(list(succ_[pop_[0].bb]))
+    ctx.ob(okl, 'process_ack_timeouts is a loop: after failing one due operation it looks for the next one', 'fire|all-due|loop', loc=pat_.loc(), rule='R-C18-2')
+    none_e = prims.edge_nodes_matching(pat_, [r'^ProtocolState::get_next_ack_timeout\(self\) is None$'])
+    seen_ = pat_.reach([0], avoid=none_e)
+    ctx.ob(bool(none_e) and not any(x in seen_ for x in pat_.exits()), 'process_ack_timeouts returns only when no further record is due', 'fire|all-due|exit', loc=pat_.loc(), rule='R-C18-2')
+    ctx.ob(bool(pop_) and guarded_any(pat_, pop_[0].bb, [r'^ProtocolState::get_next_ack_timeout\(self\) is Some$']) and show(fl_[0].arg(1)).endswith('@Some.0') if fl_ else False,
+           'exactly the due record is popped and its operation failed with the ack-timeout error', 'fire|all-due|pop', loc=pat_.loc(), rule='R-C18-2')
